@@ -126,6 +126,29 @@ def set_ns_attrs(ns, required, ty, dynamic, validator):
     ns.validator = None if validator is None else mk_validator(validator, one_arg=validator % 2 == 1)
 
 
+class _Factory:
+    """an object with __call__ (a configured factory): callable, not a function"""
+
+    def __init__(self, value):
+        self.value = value
+
+    def __call__(self):
+        return self.value
+
+
+def callable_default(val, variant):
+    """a callable default in one of the forms Python offers: lambda, functools.partial, an object defining __call__, a bound method"""
+    import functools
+    v = variant % 4
+    if v == 0:
+        return lambda v=val: v
+    if v == 1:
+        return functools.partial(lambda x: x, val)
+    if v == 2:
+        return _Factory(val)
+    return _Factory(val).__call__
+
+
 def build_ports(ns, sub, output=False):
     """populate a real PortNamespace from the tuple representation (may raise: invalid plain default)"""
     from plumpy import ports
@@ -138,7 +161,7 @@ def build_ports(ns, sub, output=False):
                 continue
             if p[3] is not None:
                 val = to_py(p[3])
-                kw['default'] = (lambda v=val: v) if p[4] else val
+                kw['default'] = callable_default(val, len(k) + len(sub)) if p[4] else val
             ns[k] = ports.InputPort(k, **kw)
         else:
             kw = dict(required=p[1], populate_defaults=p[5])
